@@ -26,6 +26,11 @@ CLAIMS = {
         "Exploration: ~3k (quick) / ~60k (thorough) generated resolution objects over pinhole, slit (L, W, L+W; scalar and per point; W<L and W>L), 2-D at all accuracy levels and user-supplied q_calc; three defects repaired, two listed findings keyed by geometry class; inside the listed low-q-cutoff region the row sum must still equal one minus the mass below the cutoff.",
         "Windows as documented; irregular grids without near-duplicate points (60 s construction budget = inconclusive); spacing >= 2e-6; tolerance for telescoping sqrt sums scaled by eps q^2/L^2.",
         "DESIGN.md section 3 C03"),
+    "C04": (
+        "Hypothesis-generated smooth intensities, widths and refinement ladders h, h/2, h/4 of user-supplied calculation grids; oracle = exact smeared values by adaptive quadrature (quad/dblquad) of the documented integrals and the closed-form second moment of the 3-sigma truncated Gaussian (2-D), with envelopes proportional to the spacing",
+        "Exploration: ~3k (quick) / ~43k (thorough) cases over pinhole (incl. windows containing q=0), slit L / W / L+W (semi-discrete and true double integral), Pinhole2D at every accuracy level in all quadrants and DirectModel end-to-end on 2-D data with the bilinear 'line' model.",
+        "Envelope constants are 3x the worst value observed on the unchanged tree over 600 generated cases (a calibrated bound, stated in evidence); inside |q| < 0.02 q_min the reference takes f(cutoff), the documented protection.",
+        "DESIGN.md section 3 C04"),
     "C05": (
         "Hypothesis-generated view/jitter/detector configurations per oriented model; oracle = numpy rotation reference R=RzRyRzRxRyRz applied to the model's own Iqac/Iqabc (shim) with |cos dtheta| weights, plus metamorphic relations (detector rotation, inversion, isotropy, 1-D independence)",
         "Exploration: ~1.9k (quick) / ~38k (thorough) oriented cases over all 21 oriented models plus ~800 isotropy cases over the un-oriented models; every clause of the statement is an executable predicate.",
